@@ -291,20 +291,22 @@ Example aag_failing_comment :
              = ADone (Some (mk_header 0 0 0 0 0 0 0 0 0), [], FErr (EIo 7), {| l_line := 3; l_start := 16 |}) v'.
 Proof. eexists. vm_compute. reflexivity. Qed.
 
-(* Known finding K1, the witness: "aig 5 0 0 0 5\n", five gates 02 00 / 04 00 / 06 00 / 08 00 / 0A 00 (the fifth
-   delta is the byte 10), then "x".  The x is at line 3, column 2; the parser reports line 2, column 11. *)
+(* The witness of the former known finding K1 (fixed by flussab 530b52f, defect D15): "aig 5 0 0 0 5\n", five gates
+   02 00 / 04 00 / 06 00 / 08 00 / 0A 00 (the fifth gate's first delta is the byte 10), then "x".  The x is at line 3,
+   column 2, and that is what the parser reports (before the fix: line 2, column 11, which is no position of the input). *)
 Definition k1_bytes : bytes := [97;105;103;32;53;32;48;32;48;32;48;32;53;10; 2;0; 4;0; 6;0; 8;0; 10;0; 120].
 
 Example k1_reported :
   exists v', srun (parse_aig 100 max_code_u8 lrs_init) (view_init k1_bytes None)
              = ADone (Some (mk_header 5 0 0 0 5 0 0 0 0), [IOAnd 0 0; IOAnd 0 0; IOAnd 0 0; IOAnd 0 0; IOAnd 0 0],
-                      FErr (ESyntax 2 11), {| l_line := 2; l_start := 14 |}) v'.
+                      FErr (ESyntax 3 2), {| l_line := 3; l_start := 23 |}) v'.
 Proof. eexists. vm_compute. reflexivity. Qed.
 
 Example k1_true_position : line_col_of k1_bytes 24 = (3, 2).
 Proof. vm_compute. reflexivity. Qed.
 
-Example k1_not_loc_ok : ~ loc_ok k1_bytes 2 11.
+(* the location reported before the fix is no position of the input *)
+Example k1_old_location_wrong : ~ loc_ok k1_bytes 2 11.
 Proof.
   intros H. apply loc_ok_spec in H. destruct H as (pos & Hp & [E|(_ & _ & _ & _ & Hc)]); [|discriminate].
   assert (Hall : forallb (fun k => negb (let p := line_col_of k1_bytes (N.of_nat k) in (fst p =? 2) && (snd p =? 11)))
@@ -316,6 +318,18 @@ Proof.
   specialize (Hall Hin). discriminate.
 Qed.
 
-(* ... and, as parse_aig_error_location_masked says, it is right once the LF of the and-gate section (bytes 14..23) is masked *)
-Example k1_masked : line_col_of (mask k1_bytes 14 24) 24 = (2, 11).
-Proof. vm_compute. reflexivity. Qed.
+(* a multi-byte delta code that ends with the byte 10: "aig 700 699 0 0 1\n", one gate 8A 0A (delta 1290) / 00, then
+   "x": the x is at line 3, column 2 *)
+Example k1_multibyte :
+  exists v', srun (parse_aig 100 max_code_u16 lrs_init)
+                  (view_init [97;105;103;32;55;48;48;32;54;57;57;32;48;32;48;32;49;10; 138;10; 0; 120] None)
+             = ADone (Some (mk_header 700 699 0 0 1 0 0 0 0), [IOAnd 110 110],
+                      FErr (ESyntax 3 2), {| l_line := 3; l_start := 20 |}) v'.
+Proof. eexists. vm_compute. reflexivity. Qed.
+
+(* the range error of a delta code that ends with the byte 10 is reported where the code starts, on the line where
+   it starts: "aig 1 0 0 0 1\n" + 0A: delta 10 > 2, reported at line 2, column 1 *)
+Example k1_range_error :
+  exists v', srun (parse_aig 100 max_code_u8 lrs_init) (view_init [97;105;103;32;49;32;48;32;48;32;48;32;49;10; 10] None)
+             = ADone (Some (mk_header 1 0 0 0 1 0 0 0 0), [], FErr (ESyntax 2 1), {| l_line := 2; l_start := 14 |}) v'.
+Proof. eexists. vm_compute. reflexivity. Qed.
